@@ -25,6 +25,7 @@ type C01ClusterCase struct {
 	W3       W3Case   `json:"w3"`       // first phase: cluster shape + writes
 	More     [][]W3Op `json:"more"`     // further phases of writes
 	Searches [][]W3Op `json:"searches"` // searches after each phase
+	CutP     float64  `json:"cut_p,omitempty"` // probability that a leg's answer stream breaks off after some of its items, while the searches run (a search may then fail; one that succeeds is judged as ever)
 }
 
 func isClusterCase(raw json.RawMessage) bool {
@@ -91,6 +92,9 @@ func genC01Cluster(r *simrt.Rand, tier string) json.RawMessage {
 		}
 		c.Searches = append(c.Searches, genC01Searches(r, c.W3.Nodes, c.W3.Dim, nIds, ver))
 	}
+	if c.W3.Nodes > 1 && r.Bool(0.3) {
+		c.CutP = []float64{0.3, 0.6}[r.Intn(2)]
+	}
 	b, _ := json.Marshal(c)
 	return b
 }
@@ -143,11 +147,20 @@ func execC01Cluster(raw json.RawMessage, wantLog bool) (out Outcome) {
 					if op.Node < 1 || op.Node > len(s.nodes) || !s.nodes[op.Node-1].alive {
 						continue
 					}
+					if c.CutP > 0 {
+						s.cfg.Net.CutStream = c.CutP
+						s.faultsOn = true
+					}
 					h, _ := r.runRead(op)
+					s.faultsOn = false
 					out.Stat("dataset_searches", 1)
 					if !h.done {
 						r.viol("dataset-search/never-returned", "Dataset.Search on n%d did not return within 15 simulated seconds", op.Node)
 						return
+					}
+					if h.err != nil && c.CutP > 0 {
+						out.Stat("dataset_searches_failed_loudly_on_a_broken_stream", 1)
+						continue
 					}
 					if h.err != nil {
 						r.viol("dataset-search/fault-free-search-failed", "no fault is active, yet Dataset.Search on n%d failed: %v", op.Node, h.err)
@@ -241,6 +254,11 @@ func shrinkC01Cluster(raw json.RawMessage) []json.RawMessage {
 	emit := func(n C01ClusterCase) {
 		b, _ := json.Marshal(n)
 		out = append(out, b)
+	}
+	if c.CutP > 0 {
+		n := c
+		n.CutP = 0
+		emit(n)
 	}
 	// drop the last phase
 	if len(c.More) > 0 {
